@@ -643,7 +643,7 @@ def main():
                       '(XSem.eval_const with an arbitrary environment); expressions with calls, effects and subscripts, and the full interpreter XSem.eval '
                       '(Definition C07_fold_agrees_full, not proved) rest on the paired-program oracle: effectful operands, array index shapes, constant conditions are generated',
                       'WHOLE PROGRAMS: C07_front_preserves_partial proves that XConstProp.front preserves every XSem behaviour (fuel x4), calls, effects and array accesses included, '
-                      'for programs that are swap_safe (excluded: > / <= between two non-constant operands one of which contains a call; '
+                      'for programs that are swap_safe (excluded: > / <= whose right operand contains a call while the left one is not a literal constant; '
                       'the call spelled 4294967295(..)); the excluded shapes rest on the oracle only']
     if os.path.exists(os.path.join(vlib.COQ, 'Properties_%s.v' % PID)):
         ok = ck.proofs()
